@@ -260,6 +260,17 @@ def run_pair(job):
                                     ("step", 1, s_, False, False)] + body
                                    + [("step", 1, s_, False, False)]]
             res["schedules"] = len(scheds)
+        if name in ("same_scenario", "same_layout_other_content"):
+            # one environment is CLOSED (env.close()) while the other goes on
+            s1_, s2_ = ids[0], ids[1]
+            scheds = scheds + [[("create", 1, s1_, False, False), ("create", 2, s2_, False, False),
+                                ("step", 1, s1_, False, False), ("step", 2, s2_, False, False),
+                                ("close", 2, s2_, False, False), ("step", 1, s1_, False, False),
+                                ("reset", 1, s1_, False, False), ("step", 1, s1_, False, False)],
+                               [("create", 2, s2_, False, False), ("create", 1, s1_, False, False),
+                                ("step", 1, s1_, False, False), ("close", 1, s1_, False, False),
+                                ("step", 2, s2_, False, False), ("reset", 2, s2_, False, False)]]
+            res["schedules"] = len(scheds)
         cs_by = {i: corpus.cs_of(sp) for sp, i in zip(specs, ids)}
         plans = {}
         for i, cs in cs_by.items():
@@ -289,6 +300,12 @@ def run_pair(job):
                     live[slot] = [eid, s, rec.envs[eid], 0]
                 elif kind == "reset":
                     ev = rec.reset(live[slot][0])
+                elif kind == "close":
+                    try:
+                        live[slot][2].close()
+                        ev = rec.emit(dict(ev="closed", env=live[slot][0]))
+                    except Exception as exc:      # noqa
+                        ev = rec.raised(live[slot][0], "close", exc, "C10", "close_is_total")
                 else:
                     k = plans[s][live[slot][3] % len(plans[s])]
                     live[slot][3] += 1
